@@ -9,11 +9,13 @@ from harness.util import outcome, bits, Interner
 
 # (every pool is listed in ascending order: token order = name order = id order, which the specification's ids rely on;
 #  pool 3: names and doses whose textual concatenations coincide - "d" + "11.0" = "d1" + "1.0" - and names that are prefixes of each other)
-SAMPLE_POOLS = [["", "A", "a", "é"], ["HT-29", "MCF7", "mcf7-long-name", "中"], ["s0", "s1", "s10", "s2"], ["s", "s1", "s1.0", "s11"]]
-TREAT_POOLS = [["", "A", "a", "zz"], ["5-FU", "Drug B", "drug", "é́"], ["d0", "d1", "d2", "d3"], ["d", "d1", "d1.0", "d11"]]
-PLATE_POOLS = [["", "P", "p1", "p10"], ["plate 0", "plate 1", "plate 2", "plate-é"], ["0", "1", "2", "3"], ["1", "p", "p1", "p11"]]
+#  names that differ only by a trailing blank are different names; pool 4 is wide: a dozen samples, ids with two digits)
+SAMPLE_POOLS = [["", "A", "A ", "é"], ["HT-29", "MCF7 ", "mcf7-long-name", "中"], ["s0", "s1", "s10", "s2"], ["s", "s1", "s1.0", "s11"],
+                ["c%02d" % i for i in range(13)]]
+TREAT_POOLS = [["", "A", "A ", "zz"], ["5-FU", "Drug B", "drug", "é́"], ["d0", "d1", "d2", "d3"], ["d", "d1", "d1.0", "d11"], ["d0", "d1", "d2", "d3"]]
+PLATE_POOLS = [["", "P", "P ", "p1"], ["plate 0", "plate 1", "plate 2", "plate-é"], ["0", "1", "2", "3"], ["1", "p", "p1", "p11"], ["0", "1", "2", "3"]]
 DOSE_POOLS = [{0: -1.0, 1: 0.0, 2: 1.0, 3: 2.5}, {0: -5e-324, 1: -0.0, 2: 5e-324, 3: 1e-3}, {0: -2.0, 1: 0.0, 2: 0.1, 3: 1e300},
-              {0: -1.0, 1: 0.0, 2: 1.0, 3: 11.0}]
+              {0: -1.0, 1: 0.0, 2: 1.0, 3: 11.0}, {0: -2.0, 1: 0.0, 2: 0.1, 3: 1e300}]
 NEWVAL = 900
 ABSENT_CTL = "￿-no-control"
 
@@ -21,12 +23,13 @@ ABSENT_CTL = "￿-no-control"
 class Fixture:
     """rows: list of (sample tok, [(name tok, dose tok), ...], plate tok, value tok)"""
 
-    def __init__(self, rows, obs, ctl, fn, fd, zero=(), nan=(), pools=0, name="", tiny=()):
+    def __init__(self, rows, obs, ctl, fn, fd, zero=(), nan=(), pools=0, name="", tiny=(), explore=True):
         self.rows, self.obs, self.ctl, self.fn, self.fd = rows, list(obs), ctl, fn, fd
         self.zero, self.nan, self.name = list(zero), list(nan), name
+        self.explore = explore        # False: too many rows for TLC to explore; random histories only, validated by the trace specification
         self.tiny = list(tiny)        # value tokens stored as tiny NON-zero read-outs (a plate of them is an ordinary plate)
         self.arity = len(rows[0][1])
-        self.sp, self.tp, self.pp, self.dp = SAMPLE_POOLS[pools % 4], TREAT_POOLS[pools % 4], PLATE_POOLS[pools % 4], DOSE_POOLS[pools % 4]
+        self.sp, self.tp, self.pp, self.dp = SAMPLE_POOLS[pools % 5], TREAT_POOLS[pools % 5], PLATE_POOLS[pools % 5], DOSE_POOLS[pools % 5]
         assert all(p == sorted(p) for p in (self.sp, self.tp, self.pp)), "name pools must be ascending (token order = id order)"
         self.ctl_name = self.tp[ctl] if ctl < len(self.tp) else ABSENT_CTL
         self.valtok = Interner()
@@ -416,6 +419,9 @@ def fixtures(rnd, n_random):
         Fixture([(0, [c(0, 2), c(0, 2)], 0, 1), (0, [c(0, 2), c(0, 2)], 1, 2), (1, [c(3, 2), c(3, 1)], 1, 3), (1, [c(1, 0), c(2, 2)], 0, 4)],
                 obs=[], ctl=3, fn=1, fd=2, pools=1, name="duplicates-and-controls"),
     ]
+    # a dozen samples (two-digit ids), some only in rows the hold-out can take away: not explored by TLC, random histories only
+    fs.append(Fixture([(i, [c(i % 3, 2), c(3, 1 + i % 2)], i % 3, i + 1) for i in range(12)] + [(12, [c(1, 2), c(0, 2)], 3, 13)],
+                      obs=[0], ctl=3, fn=1, fd=2, pools=4, name="twelve-samples", explore=False))
     for i in range(n_random):
         ar = rnd.choice([1, 2, 2, 3])
         nr = rnd.randint(3, 6)
@@ -433,7 +439,7 @@ def fixtures(rnd, n_random):
             rows.append((rnd.randrange(3), [c(rnd.randrange(4), rnd.randrange(4)) for _ in range(ar)], rnd.randrange(npl + 1), v))
         obs = [p for p in range(npl + 1) if rnd.random() < 0.3]
         fs.append(Fixture(rows, obs, rnd.choice([0, 1, 2, 3, 9]), *rnd.choice([(1, 2), (1, 4), (1, 1), (3, 4)]), zero=zero, nan=nan,
-                          pools=i, name="random-%d" % i))
+                          pools=i % 4, name="random-%d" % i))
     return fs
 
 
@@ -473,6 +479,8 @@ def run_lifecycle(ctx, focus):
             fjson = fx.to_json()
             # full depth on the fixtures where it is affordable (thorough: depth 4 is 3-8 million states on the other hand-made ones)
             d = depth if (fi < 1 if ctx.quick else fi in (0, 3)) else max(2, depth - 1)
+            if not fx.explore:
+                d = 0           # (Init only: the fixture is well-formed; its behaviours are too many to enumerate)
             r = ctx.tlc("Lifecycle", lifecycle_cfg(tlc, focus, d, True, quick=ctx.quick), note="fixture %s depth %d" % (fx.name, d),
                         files={"fixture.json": fjson}, env={"FIXTURE_FILE": "fixture.json"}, coverage=True, workers=8)
             if r.violation:
@@ -509,7 +517,7 @@ def run_lifecycle(ctx, focus):
             tr_ = [{"events": w.events, "prepared": w.prepared} for w in ok]
             bad = validate(ctx, "TraceLifecycle", tr_, decide=None, next_="TNext", init="TInit", invariants=["TInv"], constants=tconst,
                            extra_files={"fixture.json": fjson}, note="fixture %s" % fx.name)
-            if focus == "C12":
+            if focus == "C12" and (fi < 2 or not ctx.quick):
                 # conformance of the numbering the specification assumes (plate id = rank of the plate name): a drift note, not a verdict
                 before = ctx.traces
                 drift = validate(ctx, "TraceLifecycle", tr_, decide=None, next_="TNext", init="TInit", invariants=["TInv"], constants=dict(tconst, Strict=True),
